@@ -364,4 +364,263 @@ theorem runs_atomic (f : Op → σ → ρ × σ) (op : Op) (s : σ) :
     Runs (Sys.atomic f) ((Sys.atomic f).start op) s (f op s).1 (f op s).2 :=
   Runs.step rfl (Runs.fin rfl)
 
+/-! ### bounded schedules -/
+
+/-- `Runs` with the number of micro-steps -/
+inductive RunsN (S : Sys σ Op κ ρ) : Nat → κ → σ → ρ → σ → Prop where
+  | fin {k s r} : S.done k = some r → RunsN S 0 k s r s
+  | step {n k s r s'} : S.done k = none → RunsN S n (S.micro k s).1 (S.micro k s).2 r s' → RunsN S (n+1) k s r s'
+
+/-- `Reach` with the number of micro-steps -/
+inductive ReachN (S : Sys σ Op κ ρ) : Nat → κ → σ → κ → σ → Prop where
+  | refl {k s} : ReachN S 0 k s k s
+  | tail {n k s k' s'} : ReachN S n k s k' s' → S.done k' = none → ReachN S (n+1) k s (S.micro k' s').1 (S.micro k' s').2
+
+theorem RunsN.runs {S : Sys σ Op κ ρ} {n k s r s'} (h : RunsN S n k s r s') : Runs S k s r s' := by
+  induction h with
+  | fin hd => exact Runs.fin hd
+  | step hn _ ih => exact Runs.step hn ih
+
+theorem ReachN.reach {S : Sys σ Op κ ρ} {n k s k' s'} (h : ReachN S n k s k' s') : Reach S k s k' s' := by
+  induction h with
+  | refl => exact Reach.refl
+  | tail _ hn ih => exact Reach.tail ih hn
+
+/-- the steps taken so far are part of the (unique) complete run: they are at most as many, and the rest remains -/
+theorem ReachN.le {S : Sys σ Op κ ρ} {m k s k' s'} (h : ReachN S m k s k' s') :
+    ∀ {N r s''}, RunsN S N k s r s'' → m ≤ N ∧ RunsN S (N - m) k' s' r s'' := by
+  induction h with
+  | refl => intro N r s'' hr; exact ⟨Nat.zero_le _, by simpa using hr⟩
+  | @tail n₀ _ _ _ _ _ hn ih =>
+    intro N r s'' hr
+    obtain ⟨hle, hrest⟩ := ih hr
+    generalize hd : N - n₀ = d at hrest
+    cases hrest with
+    | fin hdone => rw [hn] at hdone; cases hdone
+    | @step n' _ _ _ _ _ h' =>
+      refine ⟨by omega, ?_⟩
+      have : N - (n₀ + 1) = n' := by omega
+      rw [this]; exact h'
+
+/-- cost of a list of acquisitions -/
+def total (g : Op → Nat) : List (Nat × Op) → Nat
+  | [] => 0
+  | x :: l => g x.2 + total g l
+
+theorem total_append (g : Op → Nat) (l₁ l₂ : List (Nat × Op)) : total g (l₁ ++ l₂) = total g l₁ + total g l₂ := by
+  induction l₁ with
+  | nil => simp [total]
+  | cons x l ih => simp only [List.cons_append, total, ih]; omega
+
+/-- the step counter invariant: `len` steps have been taken so far -/
+def Cnt (S : Sys σ Op κ ρ) (bound : Op → Nat) (s₀ : σ) (c : Config σ Op κ ρ) (len : Nat) : Prop :=
+  ∃ sm, SeqRuns S s₀ c.log sm ∧
+    match c.holder with
+    | none => c.shared = sm ∧ len ≤ total (fun op => bound op + 2) (strip c.log)
+    | some t => ∃ op k m, (c.threads t).cur = some (op, k) ∧ ReachN S m (S.start op) sm k c.shared ∧
+                  len ≤ total (fun op => bound op + 2) (strip c.log) + 1 + m
+
+theorem cnt_step (S : Sys σ Op κ ρ) (bound : Op → Nat)
+    (hb : ∀ op s, ∃ n r s', n ≤ bound op ∧ RunsN S n (S.start op) s r s')
+    (s₀ : σ) (progs : Nat → List Op) (c c' : Config σ Op κ ρ) (t len : Nat)
+    (hi : Inv S s₀ progs c) (hc : Cnt S bound s₀ c len) (hs : step S true c t = some c') :
+    Cnt S bound s₀ c' (len + 1) := by
+  unfold step at hs
+  cases hcur : (c.threads t).cur with
+  | none =>
+    rw [hcur] at hs
+    simp only at hs
+    cases htodo : (c.threads t).todo with
+    | nil => rw [htodo] at hs; cases hs
+    | cons op rest =>
+      rw [htodo] at hs
+      simp only [Bool.true_and] at hs
+      cases hh : c.holder with
+      | some h => rw [hh] at hs; simp at hs
+      | none =>
+        rw [hh] at hs
+        simp only [Option.isSome_none, Bool.false_eq_true, if_false, Option.some.injEq] at hs
+        subst hs
+        obtain ⟨sm, hseq, hl⟩ := hc
+        rw [hh] at hl
+        simp only at hl
+        obtain ⟨hsh, hlen⟩ := hl
+        refine ⟨sm, hseq, ?_⟩
+        simp only
+        refine ⟨op, S.start op, 0, by simp [upd_same], ?_, by omega⟩
+        rw [hsh]; exact ReachN.refl
+  | some ok =>
+    obtain ⟨op, k⟩ := ok
+    rw [hcur] at hs
+    simp only at hs
+    have hholder : c.holder = some t := (hi.hold t).1 (by simp [hcur])
+    obtain ⟨sm, hseq, hl⟩ := hc
+    rw [hholder] at hl
+    simp only at hl
+    obtain ⟨op', k', m, hc', hreach, hlen⟩ := hl
+    rw [hcur] at hc'
+    simp only [Option.some.injEq, Prod.mk.injEq] at hc'
+    obtain ⟨e1, e2⟩ := hc'
+    subst e1; subst e2
+    cases hd : S.done k with
+    | some r =>
+      rw [hd] at hs
+      simp only [Option.some.injEq] at hs
+      subst hs
+      obtain ⟨N, r', s', hN, hrun⟩ := hb op sm
+      obtain ⟨hle, _⟩ := ReachN.le hreach hrun
+      refine ⟨c.shared, SeqRuns.snoc hseq (Reach.runs hreach.reach (Runs.fin hd)), ?_⟩
+      simp only
+      refine ⟨trivial, ?_⟩
+      have e : strip [(t, op, r)] = ([(t, op)] : List (Nat × Op)) := rfl
+      rw [strip_append, total_append, e]
+      simp only [total]
+      omega
+    | none =>
+      rw [hd] at hs
+      simp only [Option.some.injEq] at hs
+      subst hs
+      refine ⟨sm, hseq, ?_⟩
+      simp only [hholder]
+      exact ⟨op, (S.micro k c.shared).1, m + 1, by simp [upd_same], ReachN.tail hreach hd, by omega⟩
+
+theorem cnt_exec (S : Sys σ Op κ ρ) (bound : Op → Nat)
+    (hb : ∀ op s, ∃ n r s', n ≤ bound op ∧ RunsN S n (S.start op) s r s')
+    (s₀ : σ) (progs : Nat → List Op) (sch : List Nat) (c c' : Config σ Op κ ρ) (len : Nat)
+    (hi : Inv S s₀ progs c) (hc : Cnt S bound s₀ c len) (he : exec S true c sch = some c') :
+    Cnt S bound s₀ c' (len + sch.length) := by
+  induction sch generalizing c len with
+  | nil => simp only [exec, Option.some.injEq] at he; subst he; simpa using hc
+  | cons t ts ih =>
+    simp only [exec] at he
+    cases hs : step S true c t with
+    | none => rw [hs] at he; cases he
+    | some c₁ =>
+      rw [hs] at he
+      have := ih c₁ (len + 1) (inv_step S s₀ progs c c₁ t hi hs) (cnt_step S bound hb s₀ progs c c₁ t len hi hc hs) he
+      simp only [List.length_cons]
+      have e : len + (ts.length + 1) = len + 1 + ts.length := by omega
+      rw [e]; exact this
+
+/-- **Bounded schedules**: if every operation, started in any state, finishes within `bound op` micro-steps, then every
+    schedule of the locked machine is at most as long as the acquired operations allow: `bound op + 2` steps
+    (acquire, micro-steps, release) per acquisition.  So no schedule runs for ever: with `progress`, every run of a
+    fair scheduler ends with all threads done. -/
+theorem schedule_bounded (S : Sys σ Op κ ρ) (bound : Op → Nat)
+    (hb : ∀ op s, ∃ n r s', n ≤ bound op ∧ RunsN S n (S.start op) s r s')
+    (s₀ : σ) (progs : Nat → List Op) (sch : List Nat) (c : Config σ Op κ ρ)
+    (he : exec S true (init s₀ progs) sch = some c) :
+    sch.length ≤ total (fun op => bound op + 2) c.acq := by
+  have h0 : Cnt S bound s₀ (init s₀ progs : Config σ Op κ ρ) 0 := ⟨s₀, SeqRuns.nil, by simp [init, strip, total]⟩
+  have hc := cnt_exec S bound hb s₀ progs sch _ c 0 (inv_init S s₀ progs) h0 he
+  have hi := inv_reachable S s₀ progs sch c he
+  obtain ⟨sm, _, hl⟩ := hc
+  obtain ⟨sm', _, hl'⟩ := hi.lin
+  cases hh : c.holder with
+  | none =>
+    rw [hh] at hl hl'
+    simp only at hl hl'
+    rw [hl'.2]; omega
+  | some t =>
+    rw [hh] at hl hl'
+    simp only at hl hl'
+    obtain ⟨op, k, m, hcur, hreach, hlen⟩ := hl
+    obtain ⟨op', k', hcur', _, hacq⟩ := hl'
+    rw [hcur] at hcur'
+    simp only [Option.some.injEq, Prod.mk.injEq] at hcur'
+    obtain ⟨e1, _⟩ := hcur'
+    subst e1
+    obtain ⟨N, r', s', hN, hrun⟩ := hb op sm
+    obtain ⟨hle, _⟩ := ReachN.le hreach hrun
+    rw [hacq, total_append]
+    simp only [total]
+    omega
+
+/-! the acquired operations are bounded by the programs (finitely many threads) -/
+
+def cost (g : Op → Nat) : List Op → Nat
+  | [] => 0
+  | op :: l => g op + cost g l
+
+theorem cost_append (g : Op → Nat) (l₁ l₂ : List Op) : cost g (l₁ ++ l₂) = cost g l₁ + cost g l₂ := by
+  induction l₁ with
+  | nil => simp [cost]
+  | cons x l ih => simp only [List.cons_append, cost, ih]; omega
+
+def sumTo : Nat → (Nat → Nat) → Nat
+  | 0, _ => 0
+  | n+1, f => sumTo n f + f n
+
+theorem sumTo_le (n : Nat) (f g : Nat → Nat) (h : ∀ t, t < n → f t ≤ g t) : sumTo n f ≤ sumTo n g := by
+  induction n with
+  | zero => simp [sumTo]
+  | succ n ih =>
+    simp only [sumTo]
+    have := ih (fun t ht => h t (by omega))
+    have := h n (by omega)
+    omega
+
+theorem sumTo_single (n t₀ a : Nat) (f : Nat → Nat) :
+    sumTo n (fun t => (if t = t₀ then a else 0) + f t) = (if t₀ < n then a else 0) + sumTo n f := by
+  induction n with
+  | zero => simp [sumTo]
+  | succ n ih =>
+    simp only [sumTo, ih]
+    by_cases h1 : t₀ < n
+    · have : n ≠ t₀ := by omega
+      have : t₀ < n + 1 := by omega
+      simp [*]; omega
+    · by_cases h2 : n = t₀
+      · subst h2; simp; omega
+      · have : ¬ t₀ < n + 1 := by omega
+        simp [*]
+
+theorem total_eq_sumTo (g : Op → Nat) (n : Nat) (l : List (Nat × Op)) (h : ∀ x ∈ l, x.1 < n) :
+    total g l = sumTo n (fun t => cost g (opsOf t l)) := by
+  induction l with
+  | nil =>
+    have : ∀ m, sumTo m (fun _ => 0) = 0 := by intro m; induction m with | zero => rfl | succ m ih => simp [sumTo, ih]
+    simp [total, opsOf, cost, this]
+  | cons x l ih =>
+    obtain ⟨t₀, op⟩ := x
+    have hlt : t₀ < n := h (t₀, op) (by simp)
+    have ih' := ih (fun y hy => h y (List.mem_cons_of_mem _ hy))
+    have e : (fun t => cost g (opsOf t ((t₀, op) :: l))) = (fun t => (if t = t₀ then g op else 0) + cost g (opsOf t l)) := by
+      funext t
+      by_cases ht : t = t₀
+      · subst ht; simp [opsOf, cost]
+      · have : (t₀ == t) = false := by simp; exact fun e => ht e.symm
+        simp [opsOf, this, ht]
+    rw [e, sumTo_single, ← ih']
+    simp [total, hlt]
+
+/-- with `n` threads (`progs t = []` for `t ≥ n`) every schedule is at most `Σ_{t<n} Σ_{op ∈ progs t} (bound op + 2)` long -/
+theorem schedule_bounded_programs (S : Sys σ Op κ ρ) (bound : Op → Nat)
+    (hb : ∀ op s, ∃ n r s', n ≤ bound op ∧ RunsN S n (S.start op) s r s')
+    (s₀ : σ) (progs : Nat → List Op) (n : Nat) (hn : ∀ t, n ≤ t → progs t = [])
+    (sch : List Nat) (c : Config σ Op κ ρ) (he : exec S true (init s₀ progs) sch = some c) :
+    sch.length ≤ sumTo n (fun t => cost (fun op => bound op + 2) (progs t)) := by
+  have h1 := schedule_bounded S bound hb s₀ progs sch c he
+  have hi := inv_reachable S s₀ progs sch c he
+  have hlt : ∀ x ∈ c.acq, x.1 < n := by
+    intro x hx
+    apply Classical.byContradiction
+    intro hge
+    have hp := hn x.1 (by omega)
+    have ho := hi.ord x.1
+    rw [hp] at ho
+    have hmem : x.2 ∈ opsOf x.1 c.acq := by
+      simp only [opsOf, List.mem_map, List.mem_filter]
+      exact ⟨x, ⟨hx, by simp⟩, rfl⟩
+    have : opsOf x.1 c.acq = [] := by
+      cases hq : opsOf x.1 c.acq with
+      | nil => rfl
+      | cons a b => rw [hq] at ho; simp at ho
+    rw [this] at hmem; cases hmem
+  rw [total_eq_sumTo _ n c.acq hlt] at h1
+  refine Nat.le_trans h1 (sumTo_le n _ _ ?_)
+  intro t _
+  have ho := hi.ord t
+  rw [← ho, cost_append]; omega
+
 end Mutex
